@@ -139,7 +139,9 @@ def r1_r2_r3(ctx):
               "result %r" % res,
               "cannot derive generate(min,max) <= max: ratio*(max-min)+min is rounded three times and may exceed max "
               "(abstract result %r); e.g. ratio = 1, min=-0.3, max=0.9" % res)
-    ctx.check("R18.3", "not-nan", not res.nan or (res.ge_sym("min", 0) and res.le_sym("max", 0)), "result-may-be-nan", c.loc(gfn), "result %r" % res)
+    ctx.check("R18.3", "not-nan", not res.nan, "result-may-be-nan", c.loc(gfn), "result %r" % res,
+              "generate(min, max) may return NaN (abstract result %r): with state 0 and an interval whose width overflows, 0 * inf = NaN, and NaN is not within [min, max]; "
+              "`.max(min).min(max)` maps a NaN to min, `clamp` keeps it" % res)
     # MIR cross-check (dev profile only): every Assert terminator corresponds to an obligation kind we generated
     if "overflow_checks=true" in c.f.get("flags", ""):
         for p, fnn, pref in ((GEN + "::create", cfn, "create"), (GEN + "::generate", gfn, "generate")):
@@ -208,7 +210,7 @@ def r4_r5(ctx, consts, inv, f0):
 
 def r6(ctx):
     c = ctx.crate
-    allowed_prefix = ("core::num::", "core::f32::", "std::f32::", "std::cmp::Ord::", "core::cmp::Ord::")
+    allowed_prefix = ("core::num::", "core::f32::", "std::f32::", "std::cmp::Ord::", "core::cmp::Ord::", "std::cmp::min", "std::cmp::max", "core::cmp::min", "core::cmp::max")
     for p, extra in ((GEN + "::generate", ()), (GEN + "::shuffle", (GEN + "::generate", LEN, SWAP)), (GEN + "::create", ())):
         fn = ctx.fn(p)
         bad = []
@@ -235,80 +237,63 @@ def r6(ctx):
 
 
 def r7(ctx):
+    """R18.7 on the E6 summary of Tensor::random: per rank one result path; it is `Tensor { shape: <the requested shape>, data: Data::<Rank>(N) }`
+    where N is a nest over 0..d_k with d_k the shape's own components in order and every element one `generator.generate(min, max)` draw
+    from the generator created at the top."""
+    from .. import e6
     c = ctx.crate
     fn = ctx.fn("tensor::Tensor::random")
     if len(fn["params"]) != 3:
         raise Unestablished("Tensor::random signature", c.loc(fn))
-    sh, mn, mx = [pat_binds(p)[0][1] for p in fn["params"]]
-    b = _body_block(fn)
-    gens = [s for s in b["stmts"] if s.get("k") == "let" and s["init"] is not None and strip(s["init"]).get("k") == "call"
-            and strip(s["init"])["callee"] == GEN + "::create"]
-    if len(gens) != 1:
-        raise Unestablished("Tensor::random: expected one Generator::create", c.loc(fn))
-    gh = pat_binds(gens[0]["pat"])[0][1]
-    m = strip(b["tail"])
-    if m is None or m.get("k") != "match" or e4.local_hid(m["scrut"]) != sh:
-        raise Unestablished("Tensor::random does not end in `match shape`", c.loc(fn))
+    shn, mnn, mxn = [pat_binds(p)[0][0] for p in fn["params"]]
+    SH = ("p", shn)
+    E = e6.Exec(c, fn)
+    paths = [p for p in E.run_fn() if p.exit is None or p.exit[0] == "return"]
     ranks = {"tensor::Shape::Single": ("tensor::Data::Single", 1), "tensor::Shape::Double": ("tensor::Data::Double", 2),
              "tensor::Shape::Triple": ("tensor::Data::Triple", 3), "tensor::Shape::Quadruple": ("tensor::Data::Quadruple", 4)}
-    seen = 0
-    for arm in m["arms"]:
-        vp, binds = e4.arm_variant(arm)
-        if vp not in ranks:
-            continue
-        seen += 1
-        dctor, rank = ranks[vp]
+    where = c.loc(fn)
+    for vp, (dctor, rank) in ranks.items():
         inst = vp.split("::")[-1]
-        where = c.loc(fn, arm["body"])
-        lit = strip(arm["body"])
-        if lit.get("k") != "struct" or not lit["path"].endswith("tensor::Tensor"):
-            ctx.bad("R18.7", inst, "arm-not-a-tensor-literal", where, short(pretty(lit)))
+        mine = [p for p in paths if e6.variant_of(p).get(SH) == vp]
+        if len(mine) != 1:
+            ctx.bad("R18.7", inst, "arm-not-a-tensor-literal", where, "%d result paths for %s" % (len(mine), inst))
             continue
-        fs = dict((a, e) for a, e in lit["fs"])
-        ok_shape = e4.local_hid(fs.get("shape")) == sh
-        ctx.check("R18.7", inst + ":shape", ok_shape, "shape-field-not-the-requested-shape", where, "shape: shape")
-        d = strip(fs.get("data"))
-        if d is None or d.get("k") != "call" or d["callee"] != dctor:
-            ctx.bad("R18.7", inst + ":data", "wrong-data-constructor", where, "expected %s(..), found %s" % (dctor, short(pretty(d), 80)))
+        p = mine[0]
+        val = p.val if p.exit is None else p.exit[1]
+        if not (isinstance(val, tuple) and val and val[0] == "struct" and val[1].endswith("tensor::Tensor")):
+            ctx.bad("R18.7", inst, "arm-not-a-tensor-literal", where, e6.show(val, 2)[:120])
             continue
-        # nested (0..dim_k).map(|_| ...).collect() with dims in binding order
-        cur = strip(d["args"][0])
-        dims = []
-        okn = True
-        for lvl in range(rank):
-            if not (cur.get("k") == "mcall" and cur["name"] == "collect"):
-                okn = False
-                break
-            mp = strip(cur["recv"])
-            if not (mp.get("k") == "mcall" and mp["name"] == "map" and len(mp["args"]) == 1):
-                okn = False
-                break
-            rng = strip(mp["recv"])
-            if not (rng.get("k") == "struct" and rng["path"] == "std::ops::Range"):
-                okn = False
-                break
-            rf = dict((a, e) for a, e in rng["fs"])
-            if e4.lit_value(rf["start"]) != "0":
-                okn = False
-                break
-            dims.append(e4.local_hid(rf["end"]))
-            cl = strip(mp["args"][0])
-            if cl.get("k") != "closure":
-                okn = False
-                break
-            cur = strip(cl["body"])
-            while cur.get("k") == "blk" and not cur["b"]["stmts"]:
-                cur = strip(cur["b"]["tail"])
-        want = [h for (_, h) in binds]
-        if not okn or dims != want:
+        fs = dict(val[2])
+        ctx.check("R18.7", inst + ":shape", fs.get("shape") == SH, "shape-field-not-the-requested-shape", where, "shape: shape")
+        d = fs.get("data")
+        if not (isinstance(d, tuple) and d and d[0] == "call" and d[1] == dctor and len(d[2]) == 1):
+            ctx.bad("R18.7", inst + ":data", "wrong-data-constructor", where, "expected %s(..), found %s" % (dctor, e6.show(d, 2)[:80]))
+            continue
+        gen_eff = lambda e: e[0] == "mut" and e[1] == GEN + "::generate"
+        rn = e6.range_nest(E, d[2][0], gen_eff)
+        want = [("payload", SH, vp, i) for i in range(rank)]
+        if rn is None or [e6.strip_upd(x) for x in rn[0]] != want:
             ctx.bad("R18.7", inst + ":dims", "data-dimensions-differ-from-shape", where,
-                    "nested ranges bind %s, shape components %s: %s" % (dims, want, short(pretty(d), 200)))
+                    "the data is built as %s over %s; shape components %s" % (e6.show(d[2][0], 3)[:120], [e6.show(x, 2) for x in (rn[0] if rn else [])], [e6.show(x, 2) for x in want]))
             continue
-        ctx.ok("R18.7", inst + ":dims", "data dims = shape components %s in order" % [n for (n, _) in binds], where)
-        elem_ok = (cur.get("k") == "mcall" and cur["callee"] == GEN + "::generate" and e4.local_hid(cur["recv"]) == gh
-                   and [e4.local_hid(a) for a in cur["args"]] == [mn, mx])
+        ctx.ok("R18.7", inst + ":dims", "data dims = shape components in order", where)
+        el = rn[1]
+        g = e6.is_call(el, "generate", 3)
+        src = g[0] if g else None
+        created = None
+        if src is not None:
+            base = src
+            while isinstance(base, tuple) and base and base[0] in ("loopin", "loopout", "upd"):
+                if base[0] == "loopin":
+                    # value at loop entry: look the name up in the enclosing path's environment history (the generator is created once, at the top)
+                    created = base[1]
+                    break
+                base = base[1] if base[0] == "upd" else base[3]
+        crt = e6.find_terms(tuple(p.eff) + tuple(x for x in p.env.values() if isinstance(x, tuple)), lambda t: t[0] == "call" and t[1] == GEN + "::create")
+        elem_ok = (g is not None and el[1] == GEN + "::generate" and g[1] == ("p", mnn) and g[2] == ("p", mxn) and created is not None and bool(crt)
+                   and len(rn[2]) == 1)
         ctx.check("R18.7", inst + ":element", elem_ok, "element-not-generate(min,max)", where,
-                  "element = generator.generate(min, max)", "element expression is %s" % short(pretty(cur), 100))
+                  "element = generator.generate(min, max)", "element expression is %s" % e6.show(el, 3)[:100])
     ctx.floor("R18.7", 12, "4 rank arms x (shape, dims, element)")
 
 
